@@ -52,6 +52,53 @@ prop("C05",
      design_ref="DESIGN.md#c05")
 
 
+
+# ----------------------------------------------------------------------------- C01 C02 C04
+prop("C01",
+     units=lambda tier: [Unit("c01", "c01.cpp", SHIPPED, cases=scale(tier, 6000, 250000), shards=16)],
+     level="exploration",
+     rule=("(variant, key of a primary size, 1-4 blocks, direction, buffer placement incl. overlap) through "
+           "skinnyN_set_key + skinnyN_ecb_encrypt/decrypt, compared with the table-driven specification model; keys and "
+           "blocks from a mixture of uniform / sparse / constant / counting / high-bit byte strings; non-trivial = key is "
+           "neither all-zero nor one of the six published vectors; distinct = distinct serialised cases"),
+     assumptions=MODEL_ASSUME + BUILD_ASSUME + ["other compile-time paths are C12's job"],
+     technique="property-based testing (rapidcheck): random keys/blocks vs. independent specification model",
+     text=("Generated (key, block, variant, direction) cases must equal an independent table-driven SKINNY model that is "
+           "itself checked against the six published vectors at start-up. Sampling of a 2^128..2^512 input space; "
+           "straight-line code without data-dependent branches, so structured sampling is the honest level."),
+     note="trusts the reference model (KAT-checked; cross-checked with a second, Python model)",
+     design_ref="DESIGN.md#c01")
+
+prop("C02",
+     units=lambda tier: [Unit("c02", "c02.cpp", SHIPPED, cases=scale(tier, 8000, 300000), shards=16)],
+     level="exploration",
+     rule=("(key, tweak, blocks, rounds 5..8, mode, tweak path in {never set, set_tweak, set_tweak(NULL) after a non-zero "
+           "tweak, per-call}) through mantis_set_key / mantis_set_tweak / mantis_ecb_crypt / mantis_ecb_crypt_tweaked vs. "
+           "the MANTIS-r specification model, plus the direct law crypt(stored t) == crypt_tweaked(t); non-trivial = some "
+           "tweak is non-zero and the key is not the published one"),
+     assumptions=MODEL_ASSUME + BUILD_ASSUME,
+     technique="property-based testing (rapidcheck): random key/tweak/block/rounds/mode vs. independent MANTIS model",
+     text=("Generated cases over all rounds, both modes and all four ways of supplying the tweak must equal an independent "
+           "MANTIS-r model (checked against the four published vectors at start-up). Sampling, not proof."),
+     note="trusts the MANTIS reference model (KAT-checked; cross-checked with a second model)",
+     design_ref="DESIGN.md#c02")
+
+prop("C04",
+     units=lambda tier: [Unit("c04", "c04.cpp", SHIPPED, cases=scale(tier, 2500, 80000), shards=16)],
+     level="exploration",
+     rule=("stateful tweak histories: set_tweaked_key (incl. in-between lengths), set_tweak(bytes of length 1..bs | NULL), "
+           "encrypt/decrypt on Skinny128/64TweakedKey_t, and ctr_set_tweaked_key / ctr_set_tweak / set_counter / encrypt on "
+           "every CTR back end; oracle = specification cipher with the zero-padded latest tweak in TK1 and the domain bit, and "
+           "the public tweak field == model tweak after every call; non-trivial = an encryption preceded by >= 2 tweak "
+           "changes since keying, one of them short or NULL"),
+     assumptions=MODEL_ASSUME + BUILD_ASSUME,
+     technique="stateful property-based testing (rapidcheck): tweak-change histories vs. specification model",
+     text=("Generated histories of tweak changes (full, short, NULL) on tweaked schedules and CTR objects must always behave "
+           "as the specification cipher keyed with (key, latest tweak); history-dependence of the xor-out/xor-in update would "
+           "show as a mismatch. Sampling of histories, not proof."),
+     note="trusts the reference model and its reading of the tweak-domain constant (agrees with the Arduino port, C19)",
+     design_ref="DESIGN.md#c04")
+
 # ----------------------------------------------------------------------------- generic entry points
 def run(pid, tier, seed, replay):
     p = PROPS[pid]
